@@ -85,6 +85,15 @@ func (o *Once) doSlow(f func()) {
 // here so that the explorer can put them back into the cold state.
 var registered []*Once
 
+// RegisteredState serialises the closure-held Once objects (for state keys).
+func RegisteredState() []byte {
+	var b []byte
+	for _, o := range registered {
+		b = append(b, fmt.Sprint(*o)...)
+	}
+	return b
+}
+
 // ResetRegistered returns every closure-held Once to "not yet run".
 func ResetRegistered() {
 	for _, o := range registered {
